@@ -121,10 +121,17 @@ def do_run(sel=""):
         finally:
             shutil.rmtree(tmp, ignore_errors=True)
         table[name] = row
+        # written after every change (a long run may be cut short), merged with what an earlier run recorded
+        rp = os.path.join(VERIF, "seeded", "results.json")
+        try:
+            prev = json.load(open(rp))
+        except Exception:
+            prev = {}
+        prev[name] = row
+        json.dump(prev, open(rp, "w"), indent=1)
         caught = [p for p, r in row.items() if r["rc"] == 1]
         print("%-10s target=%s caught_by=%s %s" % (name, target, ",".join(caught) or "-", "" if caught else "MISSED  " + json.dumps({p: r["rc"] for p, r in row.items()})))
         sys.stdout.flush()
-    json.dump(table, open(os.path.join(VERIF, "seeded", "results.json"), "w"), indent=1)
 
 
 def do_reconfirm():
